@@ -117,22 +117,23 @@ type TCPConnRec struct {
 }
 
 func (m *TCPConnRec) AddAuthenticated(accessKey string) {
+	// the real collector first (see UDPAssocRec.RemoveNatEntry)
+	if m.tee != nil {
+		m.tee.AddAuthenticated(accessKey)
+	}
 	m.mu.Lock()
 	m.Seq = append(m.Seq, "auth")
 	m.Auth = append(m.Auth, accessKey)
 	m.mu.Unlock()
-	if m.tee != nil {
-		m.tee.AddAuthenticated(accessKey)
-	}
 }
 func (m *TCPConnRec) AddClosed(status string, data metrics.ProxyMetrics, d time.Duration) {
+	if m.tee != nil {
+		m.tee.AddClosed(status, data, d)
+	}
 	m.mu.Lock()
 	m.Seq = append(m.Seq, "closed")
 	m.Closed = append(m.Closed, closedEv{status, data, d, time.Now()})
 	m.mu.Unlock()
-	if m.tee != nil {
-		m.tee.AddClosed(status, data, d)
-	}
 }
 func (m *TCPConnRec) AddProbe(status, drainResult string, n int64) {
 	m.mu.Lock()
